@@ -130,6 +130,27 @@ def err_source(body, term):
     return names[0] if names else '?'
 
 
+def _calls_outside_err(t, allowed, out=None, depth=0):
+    """call terms in `t` whose name is not in `allowed`, not looking into Err(..) / None aggregates (a size that is read out of an
+    Ok / Some / Continue projection cannot come from the payload of the error alternative of a merged value)"""
+    if out is None:
+        out = []
+    if not isinstance(t, tuple) or not t or depth > 60:
+        return out
+    if t[0] == 'agg' and isinstance(t[1], dict) and t[1].get('variant') in ('Err', 'None', 'Break'):
+        return out
+    if is_call(t) and t[3] not in allowed:
+        out.append(t)
+    for x in t[1:]:
+        if isinstance(x, tuple):
+            _calls_outside_err(x, allowed, out, depth + 1)
+        elif isinstance(x, list):
+            for y in x:
+                if isinstance(y, tuple):
+                    _calls_outside_err(y, allowed, out, depth + 1)
+    return out
+
+
 def run(R):
     tonic = R.crate('tonic')
 
@@ -299,7 +320,7 @@ def run(R):
                         continue
                     n_alloc += 1
                     sz = b.origin(t['args'][-1] if t.get('name') != 'resize' else t['args'][1])
-                    foreign = find_terms(sz, lambda x: is_call(x) and x[3] not in ARITH)
+                    foreign = _calls_outside_err(sz, ARITH | {'branch', 'get_u8'})
                     R.check(not foreign, 'C07.R2', 'alloc-size:%s:%s' % (short(b.path).split('::')[-1], t.get('name')), site(b, bb),
                             'size = %s; computed from %s' % (show(sz)[:90], 'the frame length and settings only' if not foreign else 'the result of %s' % short(foreign[0][1])[-60:]))
         R.floor('C07.R2', 'allocation sites on the receive path', n_alloc, 2)
